@@ -74,6 +74,32 @@ def apply_edit(engine, ed: dict) -> None:
         if len(terms) > 1:
             i, j = ed["ti"] % len(terms), (ed["ti"] + 1) % len(terms)
             terms[i], terms[j] = terms[j], terms[i]
+    elif t == "same_value":
+        # an edit to the value the attribute already has (a GUI that writes every field back): changes nothing
+        w = ed["what"]
+        if w == "rule_text":
+            b = engine.rule_blocks[ed["b"] % len(engine.rule_blocks)]
+            r = b.rules[ed["r"] % len(b.rules)]
+            if float(f"{r.weight:.3f}") == r.weight:  # (the text prints the weight with `decimals` digits: otherwise not the same value)
+                r.text = r.text
+        elif w == "rule_weight":
+            b = engine.rule_blocks[ed["b"] % len(engine.rule_blocks)]
+            r = b.rules[ed["r"] % len(b.rules)]
+            r.weight = r.weight
+        elif w == "range":
+            for v in engine.variables:
+                v.range = v.range
+        elif w == "names":
+            for v in engine.variables:
+                v.name = v.name
+                for t_ in v.terms:
+                    t_.name = t_.name
+        elif w == "operators":
+            for b in engine.rule_blocks:
+                b.conjunction, b.disjunction, b.implication, b.activation = b.conjunction, b.disjunction, b.implication, b.activation
+            for v in engine.output_variables:
+                v.aggregation, v.defuzzifier, v.default_value, v.lock_previous, v.lock_range = (
+                    v.aggregation, v.defuzzifier, v.default_value, v.lock_previous, v.lock_range)
     elif t == "gain0":
         S.set_gain(fdec(ed["v"]))  # the parameter of the user-defined function element (process-global, like its factory)
     elif t == "resolution":
@@ -141,6 +167,8 @@ def apply_edit_spec(spec: dict, ed: dict) -> None:
         if len(terms) > 1:
             i, j = ed["ti"] % len(terms), (ed["ti"] + 1) % len(terms)
             terms[i], terms[j] = terms[j], terms[i]
+    elif t == "same_value":
+        pass
     elif t == "gain0":
         spec["gain0"] = ed["v"]
     elif t == "resolution":
@@ -169,6 +197,10 @@ def gen_edit(rng, spec: dict) -> dict:
         t = rng.choice(["term_attr", "term_attr", "term_attr", "discrete_cell", "linear_coeff", "function_var", "range",
                         "rule_weight", "resolution", "activation_param", "operator", "out_setting", "unload_rule", "swap_rules",
                         "swap_terms"])
+        if rng.random() < 0.06:
+            bi = rng.randrange(len(spec["blocks"]))
+            return {"t": "same_value", "what": rng.choice(["rule_text", "rule_text", "rule_weight", "range", "names", "operators"]),
+                    "b": bi, "r": rng.randrange(len(spec["blocks"][bi]["rules"]))}
         if S.uses_gain0(spec) and rng.random() < 0.3:
             return {"t": "gain0", "v": fenc(rng.choice([0.5, 2.0, 1.0, 0.25]))}
         if t in ("unload_rule", "swap_rules"):
